@@ -27,13 +27,13 @@ func MarshalText[T any](t TestingT, cases []CaseText[T]) {
 	t.Helper()
 
 	for i, c := range cases {
+		if !isForMarshal(c.Constraint) {
+			continue
+		}
+
 		if _, ok := any(c.Value).(encoding.TextMarshaler); !ok {
 			assert.FailNowf(t, "unable to test MarshalText", "type %T must implements encoding.TextMarshaler", c.Value)
 			return
-		}
-
-		if !isForMarshal(c.Constraint) {
-			continue
 		}
 
 		failInfo := fmt.Sprintf("case %d failed", i)
@@ -62,13 +62,13 @@ func UnmarshalText[T any](t TestingT, cases []CaseText[T], helper TypeHelper[T])
 
 	var f func(*T) encoding.TextUnmarshaler
 	for i, c := range cases {
+		if !isForUnmarshal(c.Constraint) {
+			continue
+		}
+
 		if f = castToFunc[T, encoding.TextUnmarshaler](c.Value); f == nil {
 			assert.FailNowf(t, "unable to test UnmarshalText", "type %T must implements encoding.TextUnmarshaler", c.Value)
 			return
-		}
-
-		if !isForUnmarshal(c.Constraint) {
-			continue
 		}
 
 		failInfo := fmt.Sprintf("case %d failed", i)
